@@ -1,5 +1,5 @@
 ---------------------------- MODULE MC_SymOrbits ----------------------------
-(* every structure of a small catalogue = one TLC state: lattice type, one or two sites (equal or different species,
+(* every structure of a small catalogue = one TLC state: lattice type (cubic, tetra, ortho, hex), one or two sites (equal or different species,
    optionally with magnetic moments along z), positions with denominator DEN.  The state carries the space group
    (modulo lattice translations), the site maps, the integer shifts T, the images of a list of hopping triples and
    the irreducible triples; the invariants are the group axioms and C20/C21's discrete clauses. *)
@@ -44,7 +44,7 @@ Build == /\ pc = "chosen"
                              {x \in X : \A n \in 1..Len(ops') :
                                  LET y == <<VAdd(MV(ops'[n].W, x[1]), VSub(tvec'[n][x[2]], tvec'[n][x[3]])), amap'[n][x[2]], amap'[n][x[3]]>>
                                  IN y \in X => (y = x \/ KeyLess(Key(RL, x), Key(RL, y)))}
-                   /\ shells' = {sh \in ProjShells : ShellAllowed(SG, sh)}
+                   /\ shells' = {sh \in ProjShells : ShellAllowedIn(lat, SG, sh)}
                    /\ mixed' = MixedCentreSites(sites, SG)
               ELSE /\ pc' = "excluded" /\ UNCHANGED <<ops, amap, tvec, tmap, irr, shells, mixed>>
          /\ UNCHANGED <<lat, sites, rlist>>
@@ -88,7 +88,7 @@ IrreducibleReach == Built => LET NN == N0  BB == Box  OI == {<<r, OrbitN(NN, r)>
                              \A x \in BB : Cardinality({o \in OI : x \in o[2]}) = 1
 (* Hermiticity partner: (R, a, b) <-> (-R, b, a) commutes with the action, so symmetrisation keeps X(-R) = X(R)^dagger *)
 Flip(x) == <<VNeg(x[1]), x[3], x[2]>>
-FullShellsAllowed == Built => {"s", "p", "d", "sp3d2", "t2g", "eg"} \subseteq shells
+FullShellsAllowed == Built => (IF lat = "hex" THEN {"s", "p", "d"} ELSE {"s", "p", "d", "sp3d2", "t2g", "eg"}) \subseteq shells
 (* equivalent sites are alike *)
 MixedOrbitClosed == Built => \A n \in 1..Len(ops) : \A k \in AllSites : (k \in mixed) <=> (amap[n][k] \in mixed)
 FlipCommutes == Built => LET NN == N0  BB == Box IN \A n \in NN : \A x \in BB : TM(n, Flip(x)) = Flip(TM(n, x))
